@@ -13,7 +13,7 @@ ASSUME = [
 # the stack's own internal handler (DeviceLocal, core level) is on the bus whenever a device is connected: after a discovery
 # reply it subscribes to the peer's node management and asks for its use cases - through every connect / disconnect history
 CORE_PART = {
-    "checked": ["csub", "ev", "conn", "known", "panic", "dupev"],
+    "checked": ["csub", "ev", "conn", "known", "panic", "dupev", "late"],
     "assumptions": [],
     "quick": {"mc": [{"acts": ["connect", "discover", "disconnect"], "maxlen": 6}],
               # full history trees (a reconnection ends in an abstract state seen before, the bus registration is hidden state)
